@@ -218,6 +218,7 @@ type TxnCfg struct {
 	OwnUpdates        bool // stores on rows inserted earlier in the same transaction
 	KeyOps            bool // on keyed schemas: key operations (otherwise only InsertKey for new rows)
 	Direct            bool // single-step transactions may use the collection-level methods
+	Peeks             bool // row callbacks may end with a nested read-only QueryAt of another live row (moves the cursor)
 	OnlyCols          []int
 	NoStoreOnDel      bool                                             // never store to a row that the same transaction deletes (known finding F11)
 	NoOpAfterLenMerge bool                                             // known finding f15: no later store to a row+column after a length-changing merge in the same transaction
@@ -462,6 +463,12 @@ func genTxn(t *rapid.T, m *Model, recent []uint32, cfg TxnCfg) TxnSpec {
 		case SOwnUpdate:
 			st.Row = uint32(inserts[rapid.IntRange(0, len(inserts)-1).Draw(t, "own")])
 			st.Stores = genStoresCtx(t, m, cfg, 1, 3, "own-st", ctx, ik(int(st.Row)))
+		}
+		switch kind {
+		case SUpdate, SInsert, SInsertKey, SUpsertKey, SQueryKey, SOwnUpdate:
+			if cfg.Peeks && len(m.Rows) > 0 && rapid.IntRange(0, 5).Draw(t, "peek") == 0 {
+				st.Peek, st.HasPeek = pickLive(t, m, recent, "peek-row")
+			}
 		}
 		spec.Steps = append(spec.Steps, st)
 	}
